@@ -184,14 +184,16 @@ def run_step(fs, proc, step, hist):
 def run_pre(proc, item):
     """Prehistory: unrelated activity in the same process before the observed step."""
     k = item["kind"]
+    keep = proc.__dict__.setdefault("keepalive", [])      # a library user holds on to its anonymizers
     if k == "anonymizer":
         try:
-            proc.af.FileAnonymizer(**fa_kwargs(item["opts"]))
+            keep.append(proc.af.FileAnonymizer(**fa_kwargs(item["opts"])))
         except Exception:
             pass
     elif k == "lines":
         try:
             fa = proc.af.FileAnonymizer(**fa_kwargs(item["opts"]))
+            keep.append(fa)
             fa.anonymize_io(io.StringIO(item["text"]), io.StringIO())
         except Exception:
             pass
